@@ -13,7 +13,7 @@ from .. import gen, models, measure, estim, oracles
 
 ID = 'C08'
 RULE = ('random domain (2-5 attrs, <= 600 cells) x measurement class {empty, consistent with uniform (MD early exit), all-zero '
-        'queries (L = 0), ordinary, boundary optimum (N = 1), single attribute} x solver {MD, RDA, IG} x iterations '
+        'queries (L = 0), ordinary, boundary optimum (N = 1), single attribute, noise 1e-3..1e-6 (line search exhausted)} x solver {MD, RDA, IG} x iterations '
         '{1,2,3,10,100,1000} x structural zeros on/off x total; every estimate() return is judged; distinct = content hash; '
         'non-trivial = always (the empty-measurement class is part of the quantifier)')
 ANCHORS = ['FactoredInference.estimate', 'FactoredInference.mirror_descent', 'FactoredInference.dual_averaging',
@@ -26,7 +26,7 @@ PLAN = {
     'quick': dict(cases=240, budget_s=75, case_timeout=300, min_cases=60),
     'thorough': dict(cases=4000, budget_s=900, case_timeout=600, min_cases=666),
 }
-CLASSES = ['empty', 'uniform_consistent', 'zero_queries', 'ordinary', 'ordinary', 'boundary', 'single_attr']
+CLASSES = ['empty', 'uniform_consistent', 'zero_queries', 'ordinary', 'ordinary', 'boundary', 'single_attr', 'precise']
 ITERS = [1, 2, 3, 10, 100, 1000]
 
 
@@ -51,6 +51,10 @@ def gen_case(rng, tier, idx):
         meas, _ = measure.gen_measurements(rng, attrs, shape, 1, 3, N=1, qkinds=['identity', 'none', 'prefix'], sigmas=[0.1, 1.0],
                                            min_cells=mc, max_cells=64, noise=False)
         total = 1.0
+    elif cls == 'precise':
+        # answers far more precise than the total is large: the first steps of every line search overshoot
+        meas, _ = measure.gen_measurements(rng, attrs, shape, 1, 3, N=max(1.0, total), sigmas=[1e-3, 1e-5, 1e-6], min_cells=mc, max_cells=64,
+                                           qkinds=['identity', 'none', 'dense', 'prefix'])
     elif cls == 'single_attr':
         a = [x for x in attrs if shape[attrs.index(x)] >= mc][0]
         n = n_of((a,))
@@ -64,7 +68,8 @@ def gen_case(rng, tier, idx):
         cells = list(dict.fromkeys(cells))
         if len(cells) < n_of(t):
             zeros = {tuple(t): cells}
-    return dict(attrs=attrs, shape=shape, cls=cls, meas=meas, solver=solver, iters=int(gen.pick(rng, ITERS)), total=total,
+    iters = int(gen.pick(rng, ITERS)) if cls != 'precise' else int(gen.pick(rng, [1, 1, 2, 3, 10, 100]))
+    return dict(attrs=attrs, shape=shape, cls=cls, meas=meas, solver=solver, iters=iters, total=total,
                 zeros=zeros, give_total=bool(rng.rand() < 0.8 or cls in ('empty', 'zero_queries')),
                 np_seed=int(rng.randint(2 ** 31)))
 
